@@ -6,13 +6,22 @@ import PhyVerif.Driver.C16
 namespace PhyVerif.Driver
 open Lean PhyVerif
 
+def asPairN' (j : Json) : R (Nat × Nat) := do
+  let l ← asList asNat j
+  match l with
+  | [a, b] => pure (a, b)
+  | _ => .error "pair expected"
+
 def runC11 (op : String) (j : Json) : R Json := do
   match op with
   | "merge_spikes" =>
     let times ← getIntss j "times"; let sc ← getNatss j "clusters"; let st ← getNatss j "templates"
     let counts ← getNats j "template_counts"
     let order := C11.spikeOrder times
+    -- per file: per probe `null` (no such file) or the rows [id, token]
+    let mds ← if hasFld j "mds" then fld j "mds" >>= asList (asList (asOpt (asList asPairN'))) else pure []
     pure (Json.mkObj [
+      ("metadata", jList (fun md => jList jPairN (C11.mergeClusterData md sc)) mds),
       ("order", jNats order),
       ("origins", jList jPairN (C11.mergedOrigins times)),
       ("times", jInts (C11.mergedTimes times)),
